@@ -233,9 +233,9 @@ package builder
 //@ func (e *errList) add(err error)
 //@   requires [nonnil] e != nil
 //@   modifies *e
-//@   ensures [len C11] len(*e) == old(len(*e)) + 1
-//@   ensures [last C11] (*e)[old(len(*e))] == err
-//@   ensures [prefix C11] forall k int :: 0 <= k && k < old(len(*e)) ==> (*e)[k] == old((*e)[k])
+//@   ensures [len C11 C16] len(*e) == old(len(*e)) + 1
+//@   ensures [last C11 C16] (*e)[old(len(*e))] == err
+//@   ensures [prefix C11 C16] forall k int :: 0 <= k && k < old(len(*e)) ==> (*e)[k] == old((*e)[k])
 //@   safety C11
 
 // IsPErr(e, inner, pos): e is a *parserError wrapping inner, positioned at pos.
@@ -700,10 +700,10 @@ package builder
 //@ func (e *errList) dedupe()
 //@   requires [nonnil] e != nil && forall k int :: 0 <= k && k < len(*e) ==> (*e)[k] != nil
 //@   modifies *e
-//@   ensures [first-occurrences C11] KeptE(old(*e), len(old(*e)), arr(*e), len(*e)) && off(*e) == 0
-//@   ensures [subset C11] forall k int :: {(*e)[k]} 0 <= k && k < len(*e) ==> exists j int :: 0 <= j && j < len(old(*e)) && (*e)[k] == old(*e)[j]
-//@   ensures [nonempty C11] len(old(*e)) > 0 ==> len(*e) > 0
-//@   loop#1 invariant [kept C11] *e == old(*e) && off(cleaned) == 0 && KeptE(*e, idx1, arr(cleaned), len(cleaned)) && set != nil
+//@   ensures [first-occurrences C11 C06] KeptE(old(*e), len(old(*e)), arr(*e), len(*e)) && off(*e) == 0
+//@   ensures [subset C11 C06] forall k int :: {(*e)[k]} 0 <= k && k < len(*e) ==> exists j int :: 0 <= j && j < len(old(*e)) && (*e)[k] == old(*e)[j]
+//@   ensures [nonempty C11 C06] len(old(*e)) > 0 ==> len(*e) > 0
+//@   loop#1 invariant [kept C11 C06] *e == old(*e) && off(cleaned) == 0 && KeptE(*e, idx1, arr(cleaned), len(cleaned)) && set != nil
 //@     | && (forall m string :: {has(set, m)} has(set, m) == (exists i int :: 0 <= i && i < idx1 && errMsg((*e)[i]) == m))
 //@     | && (forall m string :: {has(set, m)} has(set, m) ==> set[m])
 //@     | && (forall k int :: {cleaned[k]} 0 <= k && k < len(cleaned) ==> exists j int :: 0 <= j && j < idx1 && cleaned[k] == (*e)[j])
@@ -716,8 +716,12 @@ package builder
 //@   ensures [typed C11] res != nil ==> is(res, "errList") && len(as(res, "errList")) > 0 && forall k int :: {as(res, "errList")[k]} 0 <= k && k < len(as(res, "errList")) ==> exists j int :: 0 <= j && j < len(e) && as(res, "errList")[k] == e[j]
 //@   safety C11
 
+// the "a, b or c" text of the expected list (C12): the entries themselves are never rewritten
 //@ func listJoin(list []string, sep string, lastSep string) (s string)
 //@   pure
+//@   ensures [empty C12] len(list) == 0 ==> s == ""
+//@   ensures [single C12] len(list) == 1 ==> s == list[0]
+//@   ensures [many C12] len(list) >= 2 ==> s == strJoin(list[:len(list)-1], sep) + " " + lastSep + " " + list[len(list)-1]
 //@   safety C11 C12
 
 // options are applied by user-supplied closures: they set option fields only (assumption)
@@ -843,6 +847,9 @@ package builder
 // the count starts at zero, so that "at most n expressions" is about THIS parse (C16; not when the Statistics
 // option installs a Stats object that was used before: known finding F22)
 //@   ensures [budget-from-zero C16] p.ExprCnt == 0
+// the budget is the one the options set (no budget = unlimited); nothing else adjusts it
+//@   at "if p.maxExprCnt == 0 {" ghost budgetAsSet = p.maxExprCnt
+//@   ensures [budget-as-set C16 local] p.maxExprCnt == ite(budgetAsSet == 0, 18446744073709551615, budgetAsSet)
 //@   safety C11
 //@   frame C18
 
@@ -882,6 +889,8 @@ package builder
 //@   modifies all Stats.ExprCnt, all map[string]any, all storeDict, PSdbg0, PSmemo0, PSstate0
 //@   all-calls os.Open [open-error-returned C11] oerr != nil ==> err == oerr && i == nil
 //@   all-calls os.File.Close [close-error-returned C11] cerr != nil ==> err == cerr
+// otherwise the result is ParseReader's, value AND errors together (C11)
+//@   all-calls ParseReader [value-passed-on C11] i == val
 //@   panics [user] true
 //@   safety C11
 //@ func (p position) String() (res string)
